@@ -1,10 +1,11 @@
 """C06 - semilegal generation, semilegal validation and well-formedness agree."""
-from . import genrules
+from . import genrules, witness
 
 
 def run(ctx):
     facts = ctx.facts("dev")
     ctx.decided += [
+        "G5w E4 witnesses for the privacy of Move's fields and the unsafety of Move::new_unchecked",
         "G1/G2 each of the five generator families (both colours, every sink) reaches exactly the emitters its documented move class "
         "prescribes; the classes partition: all = capture + simple, simple = no_promote + promote; allowed_mask table",
         "G3 every add_move site passes a constant (kind, piece) accepted by matches_piece (tabulated 10x6); new_unchecked only from add_move",
@@ -26,3 +27,5 @@ def run(ctx):
     genrules.constructors_rule(ctx, facts, "G5")
     genrules.wellformed_rule(ctx, facts, "WF")
     genrules.semilegal_rule(ctx, facts, "G6", thorough=True)
+    witness.cf_rule(ctx, 'G5w', ('cf/C06/', 'cf/C19/unsafe-new'),
+                    "a Move's fields cannot be changed from outside, and the unchecked constructor needs `unsafe` (compile-fail witnesses)")
